@@ -79,7 +79,7 @@ def c18_joint(op, impl, model, stats):
 PROPS = {
     "C01": {
         "gens": ["C01"],
-        "rule": "(every decode also runs with the OWNED hints deserialize_string / deserialize_byte_buf and must give the same result); op lines `rt <type> <value>` generated from one PRNG seed: exhaustive bool/u8/i8 (+u16/i16/char in thorough), per-width boundary sets, float classes, length/variant-index boundaries, the 29-kind corpus, random type trees (depth<=5) with well-typed values; every encode entry point (to_allocvec/stdvec/slice/vec/extend/io/size) and every decode entry point (from_bytes/take_from_bytes/from_io) is run per case; non-trivial = distinct op line whose encoding is >= 2 bytes",
+        "rule": "SCALE LADDER (sizes 15..1025 around every power of two; thorough to 4097): nesting depth for each wrapper kind and mixed, element / field / variant counts, string and byte lengths, several bodies per value; (every decode also runs with the OWNED hints deserialize_string / deserialize_byte_buf and must give the same result); op lines `rt <type> <value>` generated from one PRNG seed: exhaustive bool/u8/i8 (+u16/i16/char in thorough), per-width boundary sets, float classes, length/variant-index boundaries, the 29-kind corpus, random type trees (depth<=5) with well-typed values; every encode entry point (to_allocvec/stdvec/slice/vec/extend/io/size) and every decode entry point (from_bytes/take_from_bytes/from_io) is run per case; non-trivial = distinct op line whose encoding is >= 2 bytes",
         "nontrivial": lambda op, a: _enc_len(a) >= 2,
         "classify": lambda op, a: ("rt", _head(op), a.split(" ", 1)[0]),
         "diff_is_witness": False,
@@ -89,7 +89,7 @@ PROPS = {
     },
     "C02": {
         "gens": ["C02"],
-        "rule": "op lines `spec <value>` (the C01 value stream without types), `serann` (announced seq/map lengths incl. unknown and every u64 varint boundary up to usize::MAX), `collect` (Display values written in random chunkings); the model answers from Spec.encode — the independent encoder transcribed from spec/src/wire-format.md; non-trivial = distinct op line whose answer is an error or >= 2 bytes",
+        "rule": "SCALE LADDER (sizes 15..1025 around every power of two; thorough to 4097): nesting depth for each wrapper kind and mixed, element / field / variant counts, string and byte lengths, several bodies per value; Display piece patterns incl. pieces longer than 64 bytes after short ones; op lines `spec <value>` (the C01 value stream without types), `serann` (announced seq/map lengths incl. unknown and every u64 varint boundary up to usize::MAX), `collect` (Display values written in random chunkings); the model answers from Spec.encode — the independent encoder transcribed from spec/src/wire-format.md; non-trivial = distinct op line whose answer is an error or >= 2 bytes",
         "nontrivial": lambda op, a: _enc_len(a) >= 2 or a.startswith("err"),
         "classify": lambda op, a: (op.split(" ", 1)[0], _head(op), a.split(" ", 1)[0]),
         "diff_is_witness": True,
@@ -99,7 +99,7 @@ PROPS = {
     },
     "C03": {
         "gens": ["C03"],
-        "rule": "op lines `de <type> <bytes>`: all byte strings of length <= 2 against 28 leaf/small types (strided in quick), max-length varints with every last byte per width, all u16 strings of length 3 (strided in quick), adversarial UTF-8 for char/str, and for random shapes: valid encodings, their strict prefixes, byte/bit corruptions, varint re-paddings, huge length prefixes, random bytes; compared on accept/reject, value, remainder and the error kinds the property names (others projected to `other`); non-trivial = distinct op line with >= 1 input byte",
+        "rule": "SCALE LADDER (sizes 15..1025 around every power of two; thorough to 4097): nesting depth for each wrapper kind and mixed, element / field / variant counts, string and byte lengths, several bodies per value; each scale value as valid encoding, with a trailing byte, cut short, and with one flipped bit; op lines `de <type> <bytes>`: all byte strings of length <= 2 against 28 leaf/small types (strided in quick), max-length varints with every last byte per width, all u16 strings of length 3 (strided in quick), adversarial UTF-8 for char/str, and for random shapes: valid encodings, their strict prefixes, byte/bit corruptions, varint re-paddings, huge length prefixes, random bytes; compared on accept/reject, value, remainder and the error kinds the property names (others projected to `other`); non-trivial = distinct op line with >= 1 input byte",
         "nontrivial": lambda op, a: not op.endswith(" x"),
         "project": _c03_project,
         "classify": lambda op, a: ("de", _head(op), " ".join(a.split(" ", 2)[:2]) if a.startswith("err") else "ok"),
@@ -110,7 +110,7 @@ PROPS = {
     },
     "C05": {
         "gens": ["C05"],
-        "rule": "op lines `sercap <framing> <storage> <cap> <value>` for every capacity 0..L+2 (L = complete output length; 8 capacities around L for long outputs), framing in {plain, cobs, 10 CRC algorithms}, storage in {slice between canary zones, heapless const-generic capacities}, plus `size <value>`; harness oracle: success iff cap >= L, bytes = unbounded output, at the front, rest of buffer untouched, canaries intact; non-trivial = distinct op line with cap within 2 of L",
+        "rule": "`collectcap <framing> <storage> <cap> <piece>*`: a collect_str value whose Display writes the pieces, into bounded storage at every capacity (model: collectStrWith; error kind and buffer contents compared); op lines `sercap <framing> <storage> <cap> <value>` for every capacity 0..L+2 (L = complete output length; 8 capacities around L for long outputs), framing in {plain, cobs, 10 CRC algorithms}, storage in {slice between canary zones, heapless const-generic capacities}, plus `size <value>`; harness oracle: success iff cap >= L, bytes = unbounded output, at the front, rest of buffer untouched, canaries intact; non-trivial = distinct op line with cap within 2 of L",
         "nontrivial": lambda op, a: True,
         "project": lambda op, a: (a.split(" mem=")[0] if a.startswith("err") else a),
         "classify": lambda op, a: tuple(op.split(" ", 3)[:3]) + (a.split(" ", 2)[0] + (" " + a.split(" ", 2)[1] if a.startswith("err") else ""),),
@@ -120,7 +120,7 @@ PROPS = {
     },
     "C06": {
         "gens": ["C06"],
-        "rule": "`cobsspec <msg>` (real Cobs<AllocVec> vs Spec.cobsEncode ++ [0]) for ALL messages of length <= 6 (9 in thorough) over {00,01,02,FF}, run lengths 253..255/507..509/761..763 with zeros around them, random messages; `cobsenc` through the public Flavor API of Cobs<Slice|HVec|AllocVec> incl. too-small storage; `cobsval` (to_slice_cobs/to_vec_cobs/to_allocvec_cobs/to_stdvec_cobs agree, frame has one zero, decodes back); `cobsframes` buffers of 1..6 frames with/without last sentinel and with trailing bytes; non-trivial = distinct op line whose message/frame has >= 2 bytes",
+        "rule": "values with two / three string and byte bodies at every alignment around the first two COBS block boundaries (`cobsval`, `sercap cobs`); `cobsspec <msg>` (real Cobs<AllocVec> vs Spec.cobsEncode ++ [0]) for ALL messages of length <= 6 (9 in thorough) over {00,01,02,FF}, run lengths 253..255/507..509/761..763 with zeros around them, random messages; `cobsenc` through the public Flavor API of Cobs<Slice|HVec|AllocVec> incl. too-small storage; `cobsval` (to_slice_cobs/to_vec_cobs/to_allocvec_cobs/to_stdvec_cobs agree, frame has one zero, decodes back); `cobsframes` buffers of 1..6 frames with/without last sentinel and with trailing bytes; non-trivial = distinct op line whose message/frame has >= 2 bytes",
         "nontrivial": lambda op, a: len(op) > 14,
         "diff_is_witness": True,
         "exhaustive": {"quick": ["all 5,461 messages of length <= 6 over {00,01,02,FF}"], "thorough": ["all 349,525 messages of length <= 9 over {00,01,02,FF}"]},
@@ -129,7 +129,7 @@ PROPS = {
     },
     "C07": {
         "gens": ["C07"],
-        "rule": "`cobsde <type> <bytes>`: from_bytes_cobs and take_from_bytes_cobs on ALL byte strings of length <= 5 (7 in thorough) over {00,01,02,03,FF} x 4 target types, valid frames with every truncation and every position corrupted, random bytes, long 0xFF-code frames; buffers sit between canary zones and the bytes at/after the sentinel are compared before/after; non-trivial = distinct op line with >= 1 input byte",
+        "rule": "long first frames: payload length next to multiples of 254, in both accepted encodings (with / without the empty closing block), decoded as types whose length prefix claims -2..+2 around what the payload holds; `cobsde <type> <bytes>`: from_bytes_cobs and take_from_bytes_cobs on ALL byte strings of length <= 5 (7 in thorough) over {00,01,02,03,FF} x 4 target types, valid frames with every truncation and every position corrupted, random bytes, long 0xFF-code frames; buffers sit between canary zones and the bytes at/after the sentinel are compared before/after; non-trivial = distinct op line with >= 1 input byte",
         "nontrivial": lambda op, a: not op.endswith(" x"),
         "diff_is_witness": True,
         "exhaustive": {"quick": ["all 3,906 strings of length <= 5 over {00,01,02,03,FF} x 4 types"], "thorough": ["all 97,656 strings of length <= 7 x 4 types"]},
@@ -138,7 +138,7 @@ PROPS = {
     },
     "C08": {
         "gens": ["C08"],
-        "rule": "(empty chunks are inserted into some histories and handed to feed once); `acc <N> <type> <chunk>*`: streams of valid/corrupt/empty/garbage segments (every segment fits) x EVERY one of the 2^(len-1) chunkings of streams of length <= 8 (13 in thorough) x capacities {longest, longest+1, 64} x 6 target types, plus long random histories; both feed and feed_ref; every FeedResult, remainder and the buffered bytes after every call are compared; harness oracle: one result per zero byte = isolated decoding, conservation; non-trivial = distinct op line with >= 2 chunks",
+        "rule": "accumulators of capacity 255..1024 with frames of 250..514 payload bytes (whole, cut at block-relevant positions, byte by byte, back to back, behind garbage); (empty chunks are inserted into some histories and handed to feed once); `acc <N> <type> <chunk>*`: streams of valid/corrupt/empty/garbage segments (every segment fits) x EVERY one of the 2^(len-1) chunkings of streams of length <= 8 (13 in thorough) x capacities {longest, longest+1, 64} x 6 target types, plus long random histories; both feed and feed_ref; every FeedResult, remainder and the buffered bytes after every call are compared; harness oracle: one result per zero byte = isolated decoding, conservation; non-trivial = distinct op line with >= 2 chunks",
         "nontrivial": lambda op, a: op.count(" x") >= 2,
         "diff_is_witness": False,
         "exhaustive": {"quick": ["all chunkings of 60 streams of length <= 8"], "thorough": ["all chunkings of 400 streams of length <= 13"]},
@@ -147,7 +147,7 @@ PROPS = {
     },
     "C09": {
         "gens": ["C09"],
-        "rule": "(empty chunks are inserted into some histories and handed to feed once); as C08 but with over-long segments, garbage and capacities equal to, one/two less than and one more than the longest segment, and capacities 1 and 2; harness oracle: no panic, loop terminates within 2*len+2 calls, buffer empty after a zero, over-long first segment reported OverFull, fitting frame after a zero delivered intact; non-trivial = distinct op line with >= 2 chunks",
+        "rule": "accumulators of capacity 255..1024 with long frames incl. capacities too small for them; (empty chunks are inserted into some histories and handed to feed once); as C08 but with over-long segments, garbage and capacities equal to, one/two less than and one more than the longest segment, and capacities 1 and 2; harness oracle: no panic, loop terminates within 2*len+2 calls, buffer empty after a zero, over-long first segment reported OverFull, fitting frame after a zero delivered intact; non-trivial = distinct op line with >= 2 chunks",
         "nontrivial": lambda op, a: op.count(" x") >= 2,
         "diff_is_witness": False,
         "trusted_base": COMMON_TB + [SERDE_TB, "hook CobsAccumulator::verif_buffered exposes buf[..idx]"],
@@ -174,7 +174,7 @@ PROPS = {
     },
     "C15": {
         "gens": ["C15"],
-        "rule": "`pun <schema>`: the borrowed form (a leaked &'static tree built by hand, not via From) and its owned conversion are serialised with the real crate, compared with each other (oracle) and with the model's serde-derive encoding; the bytes (+ trailing bytes) are deserialised as OwnedDataModelType and compared with the conversion; `deowned <bytes>`: the owned deserialiser on valid / truncated / corrupted / short arbitrary bytes vs the model's decOwned; every one of the 26 node kinds + 4+4 data kinds is probed each run, plus random trees (depth <= 6, fan-out <= 5, names empty/ASCII/multi-byte); non-trivial = distinct op line",
+        "rule": "scale schemas (depth to 513, thorough 1025; width to 300 / 1025) and opaque names (r#-prefixed, whitespace, NUL, dots, 31..300 bytes); `pun <schema>`: the borrowed form (a leaked &'static tree built by hand, not via From) and its owned conversion are serialised with the real crate, compared with each other (oracle) and with the model's serde-derive encoding; the bytes (+ trailing bytes) are deserialised as OwnedDataModelType and compared with the conversion; `deowned <bytes>`: the owned deserialiser on valid / truncated / corrupted / short arbitrary bytes vs the model's decOwned; every one of the 26 node kinds + 4+4 data kinds is probed each run, plus random trees (depth <= 6, fan-out <= 5, names empty/ASCII/multi-byte); non-trivial = distinct op line",
         "nontrivial": lambda op, a: True,
         "diff_is_witness": False,
         "exhaustive": {"quick": ["all 30 variants of both schema enums"], "thorough": ["same"]},
@@ -183,7 +183,7 @@ PROPS = {
     },
     "C19": {
         "gens": ["C19"],
-        "rule": "(the `fmt` answer also carries `fmt::is_prim`, compared with the model's isPrim); `fmt <schema>` (to_pseudocode / Display, compared as bytes) and `discover <schema>` (all_used_types as a sorted list) on every node kind incl. usize/isize/schema, array-vs-tuple cases, random trees; oracle: no panic, set contains the schema itself, rendering mentions every declared name; non-trivial = distinct op line",
+        "rule": "scale schemas (depth to 257 / 300, width to 257 / 513); (the `fmt` answer also carries `fmt::is_prim`, compared with the model's isPrim); `fmt <schema>` (to_pseudocode / Display, compared as bytes) and `discover <schema>` (all_used_types as a sorted list) on every node kind incl. usize/isize/schema, array-vs-tuple cases, random trees; oracle: no panic, set contains the schema itself, rendering mentions every declared name; non-trivial = distinct op line",
         "nontrivial": lambda op, a: True,
         "diff_is_witness": False,
         "trusted_base": COMMON_TB + ["HashSet is MODELLED as a duplicate-free list compared after sorting", "String formatting of usize MODELLED as decimal digits"],
@@ -191,7 +191,7 @@ PROPS = {
     },
     "C04": {
         "gens": ["C04"],
-        "rule": "`deg <type> <bytes>`: the C03 adversarial stream (subsampled) decoded with the input copied flush against PROT_NONE pages on the right and on the left (a read outside the input is a SIGSEGV attributed to the op line), through the slice path and the reader path (scratch buffer also guarded, three scratch sizes), with every borrowed str/bytes checked to lie inside the input right after its length prefix, ordered and disjoint, and every sequence size hint <= input length; `alloc <concrete type> <bytes>`: 10 heap-allocating Rust types (Vec<u8/u64/u128>, String, Vec<String>, Vec<Vec<u16>>, ...) decoded from adversarial length prefixes up to u64::MAX under a counting allocator with bound K_T*len+1024; any/identifier/ignored requests; non-trivial = distinct op line with >= 1 input byte",
+        "rule": "(the C03 stream incl. its scale cases under guard pages; the `alloc` op additionally runs each concrete heap type through 8 framed decoders - five CRC widths incl. the crate-root crc32 wrappers, from_bytes_cobs, take_from_bytes_cobs - under the counting allocator); `deg <type> <bytes>`: the C03 adversarial stream (subsampled) decoded with the input copied flush against PROT_NONE pages on the right and on the left (a read outside the input is a SIGSEGV attributed to the op line), through the slice path and the reader path (scratch buffer also guarded, three scratch sizes), with every borrowed str/bytes checked to lie inside the input right after its length prefix, ordered and disjoint, and every sequence size hint <= input length; `alloc <concrete type> <bytes>`: 10 heap-allocating Rust types (Vec<u8/u64/u128>, String, Vec<String>, Vec<Vec<u16>>, ...) decoded from adversarial length prefixes up to u64::MAX under a counting allocator with bound K_T*len+1024; any/identifier/ignored requests; non-trivial = distinct op line with >= 1 input byte",
         "nontrivial": lambda op, a: not op.endswith(" x"),
         "project": _c03_project_keep_wont,
         "diff_is_witness": True,
@@ -201,7 +201,7 @@ PROPS = {
     "C12": {
         "gens": ["C12"],
         "derive_programs": {"quick": 40, "thorough": 300},
-        "rule": "`maxsize <type description>`: T::POSTCARD_MAX_SIZE of a concrete Rust type vs the model's maxSize, for 66 built-in instantiations (every impl: ints, NonZero*, floats, bool, char, unit, PhantomData, Option, Result, arrays, tuples 1..6, the four ranges, refs/Box/Rc/Arc, heapless Vec/String at capacities 0,1,127,128,16383,16384, hand-written derives incl. generics) plus random #[derive(MaxSize)] programs generated from the seed with the WORKSPACE derive (structs unit/tuple/named, enums with 0,1,2,..,127,128,129 variants, nested); harness oracle per type: every candidate (one per variant, extremes of every field) and 24 random values encode within the constant, a buffer of that size suffices, and for the tight kinds the constant is attained; non-trivial = distinct type",
+        "rule": "heapless::Vec<(), N> for N at every varint-width boundary up to 2^22; derive programs always contain 127/128/129/130-variant enums (all-unit and widest-last); `maxsize <type description>`: T::POSTCARD_MAX_SIZE of a concrete Rust type vs the model's maxSize, for 66 built-in instantiations (every impl: ints, NonZero*, floats, bool, char, unit, PhantomData, Option, Result, arrays, tuples 1..6, the four ranges, refs/Box/Rc/Arc, heapless Vec/String at capacities 0,1,127,128,16383,16384, hand-written derives incl. generics) plus random #[derive(MaxSize)] programs generated from the seed with the WORKSPACE derive (structs unit/tuple/named, enums with 0,1,2,..,127,128,129 variants, nested); harness oracle per type: every candidate (one per variant, extremes of every field) and 24 random values encode within the constant, a buffer of that size suffices, and for the tight kinds the constant is attained; non-trivial = distinct type",
         "nontrivial": lambda op, a: True,
         "diff_is_witness": False,
         "trusted_base": COMMON_TB + [SERDE_TB, "proc-macro machinery around the derive is MODELLED (only its field/variant arithmetic)", "postcard's `experimental-derive` feature resolves to the registry's postcard-derive 0.1.2 (outside /repo); the checks use the workspace derive source/postcard-derive"],
@@ -209,7 +209,7 @@ PROPS = {
     },
     "C13": {
         "gens": ["C13"],
-        "rule": "`fix <le|be> <type> <int>`: a struct field with #[serde(with = postcard::fixint::le|be)] for all 8 types x 2 orders: boundary sets, every single-byte-nonzero pattern, random values, u16/i16 strided (entire domain in thorough); oracle: bytes = to_le_bytes/to_be_bytes, decodes back with the remainder intact; non-trivial = distinct op line",
+        "rule": "every `fix` case also goes through to_slice / to_vec / to_io / serialized_size and from_bytes / from_io / from_eio with an EMPTY scratch buffer (whole and 1-byte reads) / COBS / CRC; `fix <le|be> <type> <int>`: a struct field with #[serde(with = postcard::fixint::le|be)] for all 8 types x 2 orders: boundary sets, every single-byte-nonzero pattern, random values, u16/i16 strided (entire domain in thorough); oracle: bytes = to_le_bytes/to_be_bytes, decodes back with the remainder intact; non-trivial = distinct op line",
         "nontrivial": lambda op, a: True,
         "diff_is_witness": False,
         "exhaustive": {"quick": [], "thorough": ["u16 and i16, both byte orders"]},
@@ -218,7 +218,7 @@ PROPS = {
     },
     "C11": {
         "gens": ["C11"],
-        "rule": "`wio <std|eio> <failAt> <schedule> <value>`: to_io / to_eio through a byte writer that accepts data in whole, 1-byte or seeded random short pieces and fails at EVERY absolute byte offset 0..L+1 of the encoding; `rio <std|eio> <fault> <scratch> <schedule> <count> <type> <stream>`: from_io / from_eio decoding 1..5 consecutive messages from one reader delivering whole / random short reads, with scratch sizes 0..need+1, a fault injected at every byte offset of the transfer, trailing bytes, one-message-too-many (EOF) and truncated streams; the scratch buffer sits against an inaccessible page; harness oracle: bytes handed to the writer are a prefix of the plain encoding, reader value = slice value, reader advanced by exactly the message length, borrowed data inside the scratch buffer, disjoint and ordered; non-trivial = distinct op line",
+        "rule": "writer adapters std | stdzero (a full sink answers Ok(0)) | stdintr (Interrupted results in between) | eio; random-schedule readers also interleave Interrupted; `wio <std|eio> <failAt> <schedule> <value>`: to_io / to_eio through a byte writer that accepts data in whole, 1-byte or seeded random short pieces and fails at EVERY absolute byte offset 0..L+1 of the encoding; `rio <std|eio> <fault> <scratch> <schedule> <count> <type> <stream>`: from_io / from_eio decoding 1..5 consecutive messages from one reader delivering whole / random short reads, with scratch sizes 0..need+1, a fault injected at every byte offset of the transfer, trailing bytes, one-message-too-many (EOF) and truncated streams; the scratch buffer sits against an inaccessible page; harness oracle: bytes handed to the writer are a prefix of the plain encoding, reader value = slice value, reader advanced by exactly the message length, borrowed data inside the scratch buffer, disjoint and ordered; non-trivial = distinct op line",
         "nontrivial": lambda op, a: True,
         "diff_is_witness": False,
         "trusted_base": COMMON_TB + [SERDE_TB, CORE_TB, "std::io / embedded-io read_exact and write_all are MODELLED (all-or-error; partial read/write schedules inside them are invisible by their contract) and exercised with scheduled Read/Write impls", "embedded-io 0.6 adapter only (0.4 and 0.6 are mutually exclusive features of the crate; 0.4 shares the same source text)"],
@@ -226,7 +226,7 @@ PROPS = {
     },
     "C20": {
         "gens": ["C20"],
-        "rule": "`stack crccobs <storage> <cap> <alg> <type> <value>`: serialize_with_flavor(v, CrcModifier::new(Cobs::try_new(storage)?, digest)) for storage in {growable, slice between canaries, heapless} x 4 CRC widths, ample and too-small capacity; harness oracle: output = COBS frame of (plain ++ LE checksum) computed independently, reference-COBS-decoding then CRC-checked decoding recovers the value; `rec override|default <value>`: a recording user flavour with and without a try_extend override (call log compared with emit v / byte-wise pushes; payloads concatenate to the plain encoding); plus the single-layer stacks via `sercap`; non-trivial = distinct op line",
+        "rule": "block-boundary values (zero-free runs of 249..256 / 503..510 bytes, bodies of 13..129 bytes around powers of two) through `cobsval` and every stack; `stack crccobs <storage> <cap> <alg> <type> <value>`: serialize_with_flavor(v, CrcModifier::new(Cobs::try_new(storage)?, digest)) for storage in {growable, slice between canaries, heapless} x 4 CRC widths, ample and too-small capacity; harness oracle: output = COBS frame of (plain ++ LE checksum) computed independently, reference-COBS-decoding then CRC-checked decoding recovers the value; `rec override|default <value>`: a recording user flavour with and without a try_extend override (call log compared with emit v / byte-wise pushes; payloads concatenate to the plain encoding); plus the single-layer stacks via `sercap`; non-trivial = distinct op line",
         "nontrivial": lambda op, a: True,
         "diff_is_witness": False,
         "trusted_base": COMMON_TB + [SERDE_TB, "cobs and crc crates MODELLED (see C06, C10)"],
@@ -236,7 +236,7 @@ PROPS = {
         "gens": ["C14"],
         "derive_programs": {"quick": 30, "thorough": 200},
         "derive_kind": "schema",
-        "rule": "`schemaof <type description>`: the model's impl tables and derive model (`schemaOf`) vs the real `T::SCHEMA` for ~120 described types (every impl row, hand-written derives incl. raw identifiers, seed-generated derive programs); `conf <call tree> <schema> <bytes>`: REAL data recorded when the stream is generated — for ~150 concrete Rust types (every built-in Schema impl: ints, NonZero*, floats, char, str/String/PathBuf, unit, tuples 1..6, arrays, slices/Vec/sets, maps incl. non-string keys, Option, Result, references, ranges, heapless 0.7/0.8, uuid, chrono DateTime<Utc/FixedOffset>, nalgebra matrices, Key, DataModelType/OwnedDataModelType; hand-written derives: unit/newtype/tuple/named, zero-field forms, generic, lifetime-carrying, nested, raw identifiers; seed-generated #[derive(Schema)] programs) and candidate + random values each: the exact serde call tree from a recording serializer (is_human_readable = false), T::SCHEMA, and postcard's bytes. The Lean driver evaluates the specification on them: conforms(tree, schema), the schema-driven reader consuming the bytes exactly, enc(erase tree) = bytes; non-trivial = distinct op line",
+        "rule": "corpus incl. enums with explicit non-monotone discriminants, raw identifiers, ManyOpts / ManyRows at 127..1025 elements; `schemaof <type description>`: the model's impl tables and derive model (`schemaOf`) vs the real `T::SCHEMA` for ~120 described types (every impl row, hand-written derives incl. raw identifiers, seed-generated derive programs); `conf <call tree> <schema> <bytes>`: REAL data recorded when the stream is generated — for ~150 concrete Rust types (every built-in Schema impl: ints, NonZero*, floats, char, str/String/PathBuf, unit, tuples 1..6, arrays, slices/Vec/sets, maps incl. non-string keys, Option, Result, references, ranges, heapless 0.7/0.8, uuid, chrono DateTime<Utc/FixedOffset>, nalgebra matrices, Key, DataModelType/OwnedDataModelType; hand-written derives: unit/newtype/tuple/named, zero-field forms, generic, lifetime-carrying, nested, raw identifiers; seed-generated #[derive(Schema)] programs) and candidate + random values each: the exact serde call tree from a recording serializer (is_human_readable = false), T::SCHEMA, and postcard's bytes. The Lean driver evaluates the specification on them: conforms(tree, schema), the schema-driven reader consuming the bytes exactly, enc(erase tree) = bytes; non-trivial = distinct op line",
         "nontrivial": lambda op, a: True,
         "diff_is_witness": True,
         "trusted_base": COMMON_TB + [SERDE_TB, "Spec/Conforms.lean (conforms, schemaParse) is the reading of 'conforms to the schema' this check commits to: kinds, field names and order, variant index/name/kind, arity, element types; struct/enum TYPE names are not compared", "the recording serializer of the harness"],
@@ -246,7 +246,7 @@ PROPS = {
         "gens": ["C17"],
         "derive_programs": {"quick": 30, "thorough": 200},
         "derive_kind": "schema",
-        "rule": "`dynagree <schema> <json> <bytes>`: REAL data of the C14 corpus (~150 concrete Rust types with Schema + Serialize: every integer width, chars, strings, byte slices, options, sequences, tuples and arrays of arity 0/1/n, structs of all four forms incl. zero-field ones, enums with all four variant forms, nested, string-keyed maps, the schema-of-schema kind, seed-generated derive programs) and candidate + random values, filtered to the property's scope by the harness (recorded call tree: integers within i64/u64, finite floats, string-keyed ascending maps, no Some(x) with JSON null): T::SCHEMA, serde_json::to_value(v), postcard::to_allocvec(v); the real to_stdvec_dyn / from_slice_dyn answers are compared with the model's and (oracle) with the static bytes / the JSON; non-trivial = distinct op line",
+        "rule": "corpus incl. ManyOpts / ManyRows (127..1025 elements, mostly None), explicit-discriminant enums; `dynagree <schema> <json> <bytes>`: REAL data of the C14 corpus (~150 concrete Rust types with Schema + Serialize: every integer width, chars, strings, byte slices, options, sequences, tuples and arrays of arity 0/1/n, structs of all four forms incl. zero-field ones, enums with all four variant forms, nested, string-keyed maps, the schema-of-schema kind, seed-generated derive programs) and candidate + random values, filtered to the property's scope by the harness (recorded call tree: integers within i64/u64, finite floats, string-keyed ascending maps, no Some(x) with JSON null): T::SCHEMA, serde_json::to_value(v), postcard::to_allocvec(v); the real to_stdvec_dyn / from_slice_dyn answers are compared with the model's and (oracle) with the static bytes / the JSON; non-trivial = distinct op line",
         "nontrivial": lambda op, a: True,
         "diff_is_witness": False,
         "trusted_base": COMMON_TB + [SERDE_TB, "serde_json (Value, Number, Map = BTreeMap, to_value / from_value) is MODELLED (Model/Json.lean, JsonOf.lean)", "IEEE conversions are a parameter `FloatOps` of the model (hypotheses `FloatOk` in the theorems), instantiated with Lean's hardware Float/Float32 in the driver"],
@@ -256,7 +256,7 @@ PROPS = {
         "gens": ["C18"],
         "project": c18_project,
         "joint": c18_joint,
-        "rule": "`dynser <schema> <json>` on every node kind (incl. char, usize/isize, 128-bit, nested options, non-string-keyed maps, schema-of-schema) and random schemas x type-correct / near-miss / unrelated JSON; oracle: no panic, and whatever is accepted decodes again and re-encodes to the same bytes (failures classified as the listed findings only when the schema has the listed shape); `dynde <schema> <bytes>` on valid encodings, truncations, corruptions, random bytes, adversarial length prefixes under the counting allocator (harness bound 512*len+4096; joint rule with the model: measured bytes <= 4096 + 512*allocDyn (+512*len when decoding fails), and allocDyn <= allocW'*(len+1) re-evaluated per case whenever minWidthPos holds; the zero-width-element class is the listed finding, probed with a 2^16 claim); non-trivial = distinct op line",
+        "rule": "scale schemas (depth to 257 / 300, width to 300 / 513) with type-correct JSON, wide enums with the variant forced to 126..130, 254..257 and the last, sequences of 127..1025 elements half null; structural near-miss JSON; `dynser <schema> <json>` on every node kind (incl. char, usize/isize, 128-bit, nested options, non-string-keyed maps, schema-of-schema) and random schemas x type-correct / near-miss / unrelated JSON; oracle: no panic, and whatever is accepted decodes again and re-encodes to the same bytes (failures classified as the listed findings only when the schema has the listed shape); `dynde <schema> <bytes>` on valid encodings, truncations, corruptions, random bytes, adversarial length prefixes under the counting allocator (harness bound 512*len+4096; joint rule with the model: measured bytes <= 4096 + 512*allocDyn (+512*len when decoding fails), and allocDyn <= allocW'*(len+1) re-evaluated per case whenever minWidthPos holds; the zero-width-element class is the listed finding, probed with a 2^16 claim); non-trivial = distinct op line",
         "nontrivial": lambda op, a: True,
         "diff_is_witness": False,
         "trusted_base": COMMON_TB + ["serde_json MODELLED", "PARTIAL: real allocation is observed with a counting allocator; `allocDyn` is a cost model (number of Values / String bytes / map entries) bounded by theorem for every schema whose Seq elements have positive width; the factor 512 bytes per counted unit relating it to real bytes is an empirical constant (measured maximum printed as joint_stats.max_used_per_cost_unit), not a theorem", "stack depth is outside the model: decoding a schema VALUE nested ~30k deep overflows the real stack (observed, not checked)"],
